@@ -121,7 +121,81 @@ MUTANTS = [
       "def mutable_rwcap_salt_hash(writekey):\n    return tagged_hash(DIRNODE_CHILD_SALT_TAG, writekey, IVLEN)\n",
       "def mutable_rwcap_salt_hash(writekey):\n    return writekey[:IVLEN]\n", "C18.7",
       note="unique per child, but the clear-text salt now shows 16 bytes of the write cap"),
+    # ---- C18.8 what the packers are keyed with (gap review: un-anchored callers of the packer)
+    M("new-directory-packed-under-readkey", NM,
+      "                                                    n.get_writekey())),",
+      "                                                    n.get_readkey())),", "C18.8",
+      note="initial children of every new directory are superencrypted under a key read-cap holders can derive"),
+    M("new-directory-packed-under-storage-index", NM,
+      "        d = self.create_mutable_file(lambda n:\n"
+      "                                     MutableData(pack_children(initial_children,\n"
+      "                                                    n.get_writekey())),\n",
+      "        def _initial_contents(n):\n"
+      "            key = n.get_storage_index()\n"
+      "            return MutableData(pack_children(initial_children, key))\n"
+      "        d = self.create_mutable_file(_initial_contents,\n", "C18.8",
+      note="same through a helper and a local: the storage index is public"),
+    M("pack-children-forgets-its-key", D,
+      "    return _pack_normalized_children(children, writekey=writekey, deep_immutable=deep_immutable)",
+      "    return _pack_normalized_children(children, writekey=b\"\", deep_immutable=deep_immutable)", "C18.8",
+      note="pass-through broken: everybody can recompute H(salt, b'')"),
+    M("packer-partial-with-readkey", NM,
+      "        d = self.create_mutable_file(lambda n:\n"
+      "                                     MutableData(pack_children(initial_children,\n"
+      "                                                    n.get_writekey())),\n",
+      "        import functools\n"
+      "        pack = functools.partial(pack_children, initial_children)\n"
+      "        d = self.create_mutable_file(lambda n: MutableData(pack(n.get_readkey())),\n", "C18.8",
+      note="the packer is taken as a value: its key argument is out of sight"),
+    # ---- C18.6 (extended) the stored writekey is the cap's writekey field
+    M("writekey-is-readkey", MF,
+      "            self._writekey = self._uri.writekey\n", "            self._writekey = self._uri.readkey\n", "C18.6",
+      note="stored under the right gate, but the value is known to readers"),
+    # ---- gates written as conditional expressions
+    M("ifexp-decrypt-when-mutable", D,
+      "            rw_uri = b\"\"\n            if writeable:\n                rw_uri = self._decrypt_rwcapdata(rwcapdata)\n",
+      "            rw_uri = self._decrypt_rwcapdata(rwcapdata) if mutable else b\"\"\n", "C18.1"),
+    M("ifexp-decrypt-wrong-branch", D,
+      "            rw_uri = b\"\"\n            if writeable:\n                rw_uri = self._decrypt_rwcapdata(rwcapdata)\n",
+      "            rw_uri = b\"\" if writeable else self._decrypt_rwcapdata(rwcapdata)\n", "C18.1"),
+    M("ifexp-plaintext-when-no-key", D,
+      "            if writekey is not None:\n                writecap = netstring(_encrypt_rw_uri(writekey, rw_uri))\n"
+      "            else:\n                writecap = ZERO_LEN_NETSTR\n",
+      "            writecap = netstring(rw_uri) if writekey is None else netstring(_encrypt_rw_uri(writekey, rw_uri))\n",
+      "C18.2"),
+    M("ifexp-rw-slot-falls-back-to-ro", D,
+      "            rw_uri = rw_uri.rstrip(b' ') or None\n",
+      "            rw_uri = (rw_uri.rstrip(b' ') or None) if writeable else (ro_uri or None)\n", "C18.1"),
     # ---- benign
+    M("benign-new-directory-nested-def", NM,
+      "        d = self.create_mutable_file(lambda n:\n"
+      "                                     MutableData(pack_children(initial_children,\n"
+      "                                                    n.get_writekey())),\n",
+      "        def _initial_contents(n):\n"
+      "            wk = n.get_writekey()\n"
+      "            return MutableData(pack_children(initial_children, wk))\n"
+      "        d = self.create_mutable_file(_initial_contents,\n", None),
+    M("benign-pack-children-positional", D,
+      "    return _pack_normalized_children(children, writekey=writekey, deep_immutable=deep_immutable)",
+      "    return _pack_normalized_children(children, writekey, deep_immutable)", None),
+    M("benign-immutable-directory-key-by-keyword", NM,
+      "        packed = pack_children(children, None, deep_immutable=True)",
+      "        no_key = None\n        packed = pack_children(children, writekey=no_key, deep_immutable=True)", None),
+    M("benign-writekey-from-filecap", MF,
+      "            self._writekey = self._uri.writekey\n",
+      "            wk = filecap.writekey\n            self._writekey = wk\n", None),
+    M("benign-decrypt-ifexp", D,
+      "            rw_uri = b\"\"\n            if writeable:\n                rw_uri = self._decrypt_rwcapdata(rwcapdata)\n",
+      "            rw_uri = self._decrypt_rwcapdata(rwcapdata) if writeable else b\"\"\n", None),
+    M("benign-encrypt-ifexp", D,
+      "            if writekey is not None:\n                writecap = netstring(_encrypt_rw_uri(writekey, rw_uri))\n"
+      "            else:\n                writecap = ZERO_LEN_NETSTR\n",
+      "            writecap = netstring(_encrypt_rw_uri(writekey, rw_uri)) if writekey is not None else ZERO_LEN_NETSTR\n",
+      None),
+    M("benign-key-truthiness", D,
+      "            if writekey is not None:\n                writecap = netstring(_encrypt_rw_uri(writekey, rw_uri))\n",
+      "            if writekey:\n                writecap = netstring(_encrypt_rw_uri(writekey, rw_uri))\n", None,
+      note="differs only for an empty key, which no caller passes and which would encrypt nothing secret-keyed anyway"),
     M("benign-readonly-local", D,
       "        writeable = not self.is_readonly()\n", "        readonly = self.is_readonly()\n", None,
       edits=[(D, "            if writeable:\n                rw_uri = self._decrypt_rwcapdata(rwcapdata)\n",
